@@ -511,6 +511,13 @@ impl C17 {
             14 | 22 | 24 => Some(gen_slts_case(g, tier, false)),
             _ => None,
         };
+        // a fifth of the train cases carry a default hybrid locomotive as well
+        let train = train.map(|mut t: TrainCase| {
+            if !t.train.dummy && g.bool(0.2) {
+                t.train.hybrids = 1;
+            }
+            t
+        });
         let corridor = match kind {
             26 | 27 | 29 | 30 => Some(gen_dispatch_case(g, 2, &CorridorOpts { max_stages: 5, max_seg: 8000.0, p_branch: 0.3, ..Default::default() })),
             _ => None,
